@@ -299,7 +299,7 @@ def r076_no_foreign_updates(ctx, rule):
                 if x.op == "sub" and x.args[0].op == "attr" and x.args[0].args[0] is r.self_term and x.args[1].op != "slice":
                     return False
                 return False
-            hits = [(e, d) for e, d in inplace_updates_of_foreign_values(r, root)
+            hits = [(e, d) for e, d in inplace_updates_of_foreign_values(r, root, ctx.prog)
                     if not (e.data.get("tkind") == "sub" and e.data["obj"].op == "attr" and e.data["obj"].args[0] is r.self_term
                             and e.data["obj"].args[1] in ("tags",))]
             # gamma of the loss moments writes its own scratch columns into self.tags (documented scratch frame): not foreign
